@@ -459,6 +459,21 @@ def tileJsonBlob (input : Bytes) : Json.Res Unit :=
   | .panic s => .panic s
   | .fuel => .fuel
 
+/-- second decoding stage of a vector tile: `feature.decode_properties(layer)` for every feature of
+    every layer (`PropertyManager::decode_tag_ids`: odd tag list, unknown key or value index → `Err`);
+    `err` if any of them fails -/
+def layerProps (l : Mvt.Layer) : List (Outcome Mvt.Props) := l.features.map fun f => Mvt.decodeTags l.keys l.vals f.tags
+
+def mvtProps (input : Bytes) : Outcome Unit :=
+  match Mvt.decodeTile input with
+  | .ok t =>
+    let rs := t.layers.flatMap layerProps
+    if rs.any (fun r => match r with | .panic => true | _ => false) then .panic
+    else if rs.any (fun r => match r with | .err => true | _ => false) then .err
+    else .ok ()
+  | .err => .err
+  | .panic => .panic
+
 def vplVerdict (input : Bytes) : String :=
   match String.fromUTF8? (ByteArray.mk input.toArray) with
   | none => "err"
@@ -479,6 +494,7 @@ def handle (args : List String) : String :=
       | "tilejson" => verdictR (tileJsonBlob bs)
       | "csv" => verdictO (csvRows false 0x2c bs)
       | "mvt" => verdictO (Mvt.decodeTile bs)
+      | "mvtprops" => verdictO (mvtProps bs)
       | "pbfstr" => verdictO (pbfStrBlob false bs).out
       | "pmdir" => verdictO (PMTiles.decDir bs)
       | "pmfind" =>
